@@ -910,6 +910,17 @@ func (ev *evaluator) evalCall(c *mrogen.Call, en *env) *callResult {
 	for _, b := range c.Bindings {
 		p := mrogen.FindParam(ins, b.Param)
 		if sp, ok := b.E.(mrogen.Split); ok {
+			if p.Flag {
+				ev.feature("per-element-disable-flag")
+				if al, isLit := sp.E.(mrogen.ArrayLit); isLit {
+					for _, el := range al.Elems {
+						if _, isRef := el.(mrogen.Ref); isRef {
+							ev.feature("per-element-disable-flag:run-time")
+							break
+						}
+					}
+				}
+			}
 			ct := p.T.ArrayOf()
 			if mapKind == "map" {
 				ct = p.T.MapOf()
